@@ -126,7 +126,15 @@ def rand_doc(rng, T, i):
         # local styles switched on and off again inside the document: the result must not keep anything of the clock-seeded id
         a = rng.below(len(parts) + 1); parts.insert(a, '<config use-local-styles="true"/>')
         parts.insert(rng.range(a + 1, len(parts)), '<config use-local-styles="false"/>'); feats.add('local-styles-toggled')
-    xml = '<svg>\n  %s\n</svg>' % '\n  '.join(parts)
+    if rng.chance(0.1):
+        parts.insert(rng.below(len(parts) + 1), '<config seed="%s"/><text xy="1 1" text="{{random()}}"/>' % rng.choice(['autumn', '-1', '1e3', ' 7', '0x10']))
+        feats.add('errors')       # a seed that is not an unsigned integer: the same error every time
+    ra = ''
+    if rng.chance(0.3):
+        ra = ''.join(' %s="%s"' % kv for kv in rng.sample([('xmlns:xlink', 'http://www.w3.org/1999/xlink'), ('preserveAspectRatio', 'xMidYMid'), ('data-a', '1'),
+                                                               ('data-b', 'x y'), ('role', 'img'), ('aria-label', 'pic'), ('font-size', '3'), ('class', 'root')], rng.range(2, 6)))
+        feats.add('root-attributes')
+    xml = '<svg%s>\n  %s\n</svg>' % (ra, '\n  '.join(parts))
     return xml, cfg, sorted(feats)
 
 
